@@ -1190,9 +1190,10 @@ def primesieve(n):
                 n //= p
                 m += 1
             mult[i] = m
-    sieve_cache = sieve
+    # sieve_cache, whose length decides whether the caches are used, last
     primes_cache = primes
     mult_cache = mult
+    sieve_cache = sieve
     return sieve, primes, mult
 
 def zetasum_sieved(critical_line, sre, sim, a, n, wp):
